@@ -283,17 +283,16 @@ class UnionMatcher(AdditiveBiMatcher):
         elif not b.is_active():
             return a.skip_to_quality(minquality)
 
-        skipped = 0
-        aq = a.block_quality()
-        bq = b.block_quality()
-        while a.is_active() and b.is_active() and aq + bq < minquality:
-            if aq < bq:
-                skipped += a.skip_to_quality(minquality - bq)
-                aq = a.block_quality()
-            else:
-                skipped += b.skip_to_quality(minquality - aq)
-                bq = b.block_quality()
-
+        # A posting of one sub-matcher may be passed over only if it could
+        # not reach the minimum quality even when added to the best remaining
+        # posting of the other sub-matcher. (The quality of the other
+        # matcher's *current block* says nothing about the documents covered
+        # by this matcher's blocks, so it cannot be used here.)
+        skipped = a.skip_to_quality(minquality - b.max_quality())
+        if a.is_active():
+            skipped += b.skip_to_quality(minquality - a.max_quality())
+        else:
+            skipped += b.skip_to_quality(minquality)
         return skipped
 
 
